@@ -1,6 +1,12 @@
 /* unit udp_close: UdpEngine::closeNow (C02 exactly one close; C06 closing never redirects another peer's datagrams) */
 #include "closenow_contract.h"
 
+/* X4: enforce-only companion contract (it reads *s after the call, which a caller that assumes the contract must not do) */
+void UdpEngine_closeNow_flag(UdpEngine *self, Session *s, TransportError why, iora_strid m, int iora_unused)
+CLOSENOW_PRE_AND_FRAME
+/* X4 marked closed (observable while the object exists, i.e. for a witness id other than this one) */ __CPROVER_ensures(CN_SID0 != GSID ==> s->closed)
+;
+
 /* idempotence: a NULL session or an already closed one => NOTHING is assigned (empty assigns clause), no callback, nothing freed */
 void UdpEngine_closeNow_null(UdpEngine *self, Session *s, TransportError why, iora_strid m, int iora_unused)
 __CPROVER_requires(IORA_TRUE && __CPROVER_is_fresh(self, sizeof(*self)) && s == NULL)
